@@ -15,7 +15,8 @@ def run(cmd, **kw):
     p = subprocess.run(cmd, shell=True, stdout=subprocess.PIPE, stderr=subprocess.STDOUT, text=True, **kw)
     return p.returncode, p.stdout
 env = dict(os.environ, PYTHONPATH=repo, PYTHONHASHSEED="0", PYTHONWARNINGS="ignore")
-res = {"property": pid, "k": k}
+res = {"property": pid, "k": k,
+       "repo_head": subprocess.run(["git", "-C", "/repo", "rev-parse", "--short", "HEAD"], capture_output=True, text=True).stdout.strip()}
 try:
     rc, out = run(f"/venv/bin/python {src}/demo.py", env=env, cwd=scratch)
     res["demo_clean_rc"] = rc
